@@ -9,7 +9,14 @@ one() {
   wt=/tmp/recheck/wt-$id; copy=/tmp/recheck/v-$id
   rm -rf $wt $copy; mkdir -p /tmp/recheck
   git -C /repo worktree add --detach $wt >/dev/null 2>&1 || { echo "$id: cannot create worktree"; return; }
-  if ! git -C $wt apply /verif/seeded/$id/patch.diff 2>/dev/null; then echo "$id ($pid): patch does not apply to HEAD"; git -C /repo worktree remove --force $wt; return; fi
+  if ! git -C $wt apply /verif/seeded/$id/patch.diff 2>/dev/null; then
+    # a later fix: commit touched the same lines: merge the change onto HEAD (three-way) and keep the result only if it still builds
+    if git -C $wt apply --3way /verif/seeded/$id/patch.diff >/dev/null 2>&1 && (cd $wt && GOFLAGS=-mod=mod GOPROXY=off GOSUMDB=off GOTOOLCHAIN=local go build ./... >/dev/null 2>&1); then
+      git -C $wt reset -q; echo "$id ($pid): patch merged onto HEAD with --3way"
+    else
+      echo "$id ($pid): patch does not apply to HEAD"; git -C /repo worktree remove --force $wt; return
+    fi
+  fi
   mkdir -p $copy; rsync -a --exclude .git --exclude .work --exclude replays --exclude seeded /verif/ $copy/; mkdir -p $copy/replays $copy/.work
   ( cd $copy && VERIF_REPO=$wt timeout 2400 ./check $pid ) > /tmp/recheck/$id.log 2>&1; rc=$?
   python3 - <<PY
